@@ -15,7 +15,7 @@
    not sent yet; [zseq c0 k] = c0, c0+1, ..., c0+k-1. *)
 From Coq Require Import ZArith List Permutation.
 From AK Require Import Common.Err C16.Instr gen.C16_Consts C16.Model
-  C16.LemList C16.LemFmt C16.LemInv C16.Lemmas.
+  C16.LemList C16.LemFmt C16.LemInv C16.LemTerm C16.Lemmas.
 Import ListNotations.
 Open Scope Z_scope.
 
@@ -30,10 +30,10 @@ Print Assumptions impl_well_locked.
    derived connections call the root's implementation object *)
 Theorem consts_ok :
   hdr_test_key = hdr_set_key /\ cap hdr_set_key = obs_key /\ sep_ok fmt_sep = true /\
-  0 <= ctr_init /\ shares_impl = true.
+  0 <= ctr_init /\ shares_impl = true /\ wrap_rule = RShareParent.
 Proof.
   exact (conj keys_agree (conj (str_eqb_eq _ _ set_key_observed)
-        (conj fmt_sep_ok (conj ctr_init_nonneg shares_impl_l)))).
+        (conj fmt_sep_ok (conj ctr_init_nonneg (conj shares_impl_l wrap_rule_shares))))).
 Qed.
 Print Assumptions consts_ok.
 
@@ -51,6 +51,30 @@ Proof.
   exists k. exact (conj H1 H2).
 Qed.
 Print Assumptions unique_gapfree.
+
+(* spelled out: the statement holds after every prefix of every schedule (firstn n sched is again a schedule) *)
+Theorem unique_gapfree_every_prefix : forall cp c0 reqs sched n,
+  let st := exec cp impl_prog (firstn n sched) (init (Some c0) reqs) in
+  NoDup (numbers st) /\
+  exists k : nat,
+    Permutation (numbers st ++ pending_all st) (zseq c0 k) /\
+    (lock st = None -> ctr st = Some (c0 + Z.of_nat k)).
+Proof. intros cp c0 reqs sched n. exact (unique_gapfree cp c0 reqs (firstn n sched)). Qed.
+Print Assumptions unique_gapfree_every_prefix.
+
+(* "one connection, including every connection derived from it": every wrapper, at any depth, uses the
+   implementation object -- lock and counter, the [state] above -- of its root (rule read from _HttpConnBase.__init__) *)
+Theorem derived_connections_share_impl : forall c, impl_of c = impl_of (root_of c) /\ impl_of c = root_of c.
+Proof.
+  intros c. split; [|exact (derived_share_l c)].
+  rewrite (derived_share_l c). clear. induction c as [i|p IH]; [reflexivity|exact IH].
+Qed.
+Print Assumptions derived_connections_share_impl.
+
+Example wrappers_of_one_root : impl_of (CWrap (CWrap (CRoot 7))) = CRoot 7 /\ impl_of (CWrap (CRoot 7)) = impl_of (CRoot 7) /\
+                               impl_of (CRoot 7) <> impl_of (CRoot 8).
+Proof. exact wrappers_l. Qed.
+Print Assumptions wrappers_of_one_root.
 
 (* the same for ANY program that passes the check, not just today's *)
 Theorem unique_gapfree_any_program : forall prog, well_locked prog = true ->
@@ -110,6 +134,25 @@ Theorem ids_pairwise_distinct : forall cp c0 reqs sched, 0 <= c0 ->
 Proof. intros cp c0 reqs sched. exact (ids_distinct_l cp impl_prog impl_well_locked_l c0 reqs sched). Qed.
 Print Assumptions ids_pairwise_distinct.
 
+(* ... stated on what the opener saw: the X-request-id values of all requests that consumed a number *)
+Theorem generated_values_distinct : forall cp c0 reqs sched, 0 <= c0 ->
+  let st := exec cp impl_prog sched (init (Some c0) reqs) in
+  generated_ids st = map (fmt cp) (numbers st) /\ NoDup (generated_ids st).
+Proof.
+  intros cp c0 reqs sched H0 st. split.
+  - exact (generated_ids_fmt cp impl_prog c0 reqs sched impl_well_locked_l).
+  - exact (generated_ids_distinct_l cp impl_prog c0 reqs sched impl_well_locked_l H0).
+Qed.
+Print Assumptions generated_values_distinct.
+
+(* the 4-digit part wraps at 10^4 but the id does not repeat; beyond 10^12 the tail grows *)
+Example wrapping_part_does_not_repeat_ids :
+  firstn 4 (fmt [] 3) = firstn 4 (fmt [] 10003) /\ fmt [] 3 <> fmt [] 10003 /\
+  length (fmt [] 999999999999) = 32%nat /\ length (fmt [] 1000000000000) = 33%nat /\
+  fmt [] 999999999999 <> fmt [] 1999999999999.
+Proof. exact wrap_l. Qed.
+Print Assumptions wrapping_part_does_not_repeat_ids.
+
 (* _send_request_ids=False: nothing is generated, every request carries just the caller's headers *)
 Theorem ids_disabled : forall cp reqs sched,
   let st := exec cp impl_prog sched (init None reqs) in
@@ -127,6 +170,47 @@ Theorem no_deadlock : forall cp c0 reqs sched,
   ~ finished st -> exists t, step cp impl_prog st t <> st.
 Proof. intros cp c0 reqs sched. exact (no_deadlock_l cp impl_prog c0 reqs sched impl_well_locked_l). Qed.
 Print Assumptions no_deadlock.
+
+(* liveness proper.  [effective st sched]: every step of sched changes the state (the scheduled thread is neither
+   done nor blocked on the lock) unless all threads are finished.  (a) from every reachable state -- ids enabled or
+   disabled -- such a continuation exists and ends with all requests sent; (b) EVERY effective schedule at least
+   [steps_left] long ends finished: no schedule that keeps scheduling runnable threads goes on for ever *)
+Theorem can_always_finish : forall cp c reqs sched,
+  let st0 := init c reqs in
+  exists more, effective cp impl_prog (exec cp impl_prog sched st0) more /\
+               finished (exec cp impl_prog (sched ++ more) st0).
+Proof.
+  intros cp [c0|] reqs sched.
+  - exact (can_finish_l cp impl_prog c0 reqs sched impl_well_locked_l).
+  - exact (can_finish_off_l cp impl_prog reqs sched impl_well_locked_l).
+Qed.
+Print Assumptions can_always_finish.
+
+Theorem effective_schedules_finish : forall cp st sched,
+  effective cp impl_prog st sched -> (steps_left impl_prog st <= length sched)%nat ->
+  finished (exec cp impl_prog sched st).
+Proof. intros cp st sched. exact (effective_finishes cp impl_prog sched st). Qed.
+Print Assumptions effective_schedules_finish.
+
+(* every step either does nothing (thread done / blocked) or uses up some of the bounded work *)
+Theorem steps_are_bounded : forall cp st t,
+  step cp impl_prog st t = st \/ (steps_left impl_prog (step cp impl_prog st t) < steps_left impl_prog st)%nat.
+Proof. intros cp st t. exact (step_measure cp impl_prog st t). Qed.
+Print Assumptions steps_are_bounded.
+
+Example effective_schedule_exists :
+  let st0 := init (Some 0) [[[]]; [[]]] in
+  effective [] impl_prog st0 eff_sched /\ (steps_left impl_prog st0 <= length eff_sched)%nat /\
+  ~ finished (exec [] impl_prog (firstn 15 eff_sched) st0).
+Proof. exact eff_sched_l. Qed.
+Print Assumptions effective_schedule_exists.
+
+(* no_deadlock is not vacuous: a reachable unfinished state with a thread blocked on the lock *)
+Example blocked_thread_waits :
+  let st := exec [] impl_prog [0; 0; 0; 1; 1]%nat (init (Some 0) [[[]]; [[]]]) in
+  ~ finished st /\ lock st = Some 0%nat /\ step [] impl_prog st 1 = st /\ step [] impl_prog st 0 <> st.
+Proof. exact blocked_l. Qed.
+Print Assumptions blocked_thread_waits.
 
 (* sanity (the theorems are not vacuous, the machine can lose an update): the same program without
    Acquire/Release hands number 0 to two requests under a 12-step schedule of two threads *)
@@ -158,3 +242,23 @@ Example other_spelling_is_replaced :
   fmt [] 0 <> mine.
 Proof. exact respelled_l. Qed.
 Print Assumptions other_spelling_is_replaced.
+
+(* an EMPTY id supplied under the documented key is an id: sent as it is, no number used, the next request gets 0 *)
+Example empty_caller_id_passed_on :
+  let st := exec [] impl_prog (repeat 0%nat 11) (init (Some 0) [[[(hdr_test_key, [])]; []]]) in
+  map out (threads st) = [[Sent (Some 0) (Some (fmt [] 0)); Sent None (Some [])]] /\ ctr st = Some 1 /\ finished st.
+Proof. exact empty_id_l. Qed.
+Print Assumptions empty_caller_id_passed_on.
+
+(* the hypotheses of caller_id_sent_unchanged are satisfiable with other headers on both sides *)
+Example caller_id_between_other_headers :
+  Forall other_key [accept_hdr] /\ Forall other_key [xother_hdr] /\
+  sent_value ([accept_hdr] ++ (hdr_test_key, mine) :: [xother_hdr]) None = Some mine.
+Proof. exact other_keys_l. Qed.
+Print Assumptions caller_id_between_other_headers.
+
+Example disabled_run :
+  let st := exec [] impl_prog [0; 1; 0; 1; 0; 1]%nat (init None [[[]]; [[(hdr_test_key, mine)]]]) in
+  finished st /\ map out (threads st) = [[Sent None None]; [Sent None (Some mine)]] /\ ctr st = None.
+Proof. exact disabled_run_l. Qed.
+Print Assumptions disabled_run.
